@@ -164,3 +164,16 @@ def t_eigh_pb():
     err = abs(sy(xbar[1])-sy(g1)).max()
     report('F-C03-6', err < 1e-5, 'order-1 adjoint of eigh vs finite differences of the gradient: err %.2g' % err)
 t_eigh_pb()
+
+
+def t_eigh_out():
+    rng = numpy.random.RandomState(1); D, P, N = 3, 1, 4
+    def sym():
+        A = rng.rand(D, P, N, N); return UTPM(A + A.transpose(0, 1, 3, 2))
+    A1, A2 = sym(), sym()
+    l, Q = UTPM.eigh(A1)
+    UTPM.eigh(A2, out=(l, Q))          # re-use the output buffers of the first call
+    R = UTPM.dot(Q, UTPM.dot(UTPM.diag(l), Q.T)) - A2
+    err = abs(R.data).max()
+    report('F-C08-1', err < 1e-10, 'UTPM.eigh(A, out=(l,Q)) with re-used buffers: residual |Q L Q^T - A| = %.2g' % err)
+t_eigh_out()
